@@ -79,7 +79,7 @@ def run(tier, seed):
 
     def one(ch):
         inp = "\n".join(json.dumps(c, separators=(",", ":")) for c in ch) + "\n"
-        p = subprocess.run([vdrive, "c03"], input=inp.encode(), capture_output=True, timeout=3000)
+        p = subprocess.run([vdrive, "c03"], input=inp.encode(), capture_output=True, cwd=common.scratch(), timeout=3000)
         if p.returncode != 0:
             raise common.Infra(f"vdrive c03 exited {p.returncode}: {p.stderr.decode(errors='replace')[-2000:]}")
         events = [json.loads(l) for l in p.stdout.decode().split("\n") if l.strip()]
